@@ -313,6 +313,10 @@ def jobs(tier):
     # C12 c: table structure, row kinds realised lazily
     for n in (5, 6, 7) if tier == "quick" else (5, 6, 7, 8):
         js.append({"for": "C12", "mode": "structure", "n": n, "layout": "base"})
+    # all three tables present and closed (too long to be reached by the free sequences), then 2 (thorough 3) free rows
+    full = ["IN", "HEADER", "DATA", "END", "OUT", "HEADER", "END", "INTRA", "HEADER", "END"]
+    for prefix in (full, full[4:7] + full[:4] + full[7:], full[:4] + full[7:] + ["EMPTY"]):
+        js.append({"for": "C12", "mode": "structure", "n": len(prefix) + (2 if tier == "quick" else 3), "layout": "base", "prefix": prefix})
     return js
 
 
@@ -327,7 +331,7 @@ def describe(spec):
     if m == "sheet":
         return "C11 sheet order=%s blanks=%d rows=%d layout=%s" % (spec["order"], spec["blanks"], spec["rows"], spec["layout"])
     if m == "structure":
-        return "C12 structure n=%d" % spec["n"]
+        return "C12 structure n=%d%s" % (spec["n"], " after [%s]" % ",".join(spec["prefix"]) if spec.get("prefix") else "")
     return "C12 %s %s.%s %s layout=%s" % (m, spec["table"], spec["field"], spec["fault"], spec["layout"])
 
 
@@ -627,6 +631,8 @@ def run_structure(S, spec):
     width = _width(layouts)
     cfg = _cfg(write_ini(layouts))
     codes = [S.int("k%d" % i, 0, len(ROWKINDS) - 1) for i in range(n)]
+    for i, kind in enumerate(spec.get("prefix") or []):
+        S.assume_cmp(codes[i], "==", ROWKINDS.index(kind))
     kinds = []
     # oracle state, advanced while rows are produced: table currently open, position in it, tables seen, verdict
     st = {"open": None, "pos": 0, "seen": [], "data": {"in": 0, "out": 0, "intra": 0}, "must_reject": None, "free": None}
